@@ -1,6 +1,6 @@
 (* C08/Proofs.v — umbrella: re-exports the lemma files and proves the instance obligations over
    the schema that is regenerated from the current tree on every run (Generated/OtlpProto.v). *)
-From Verif Require Export Common.Base C08.Model C08.Proofs1 C08.Proofs2 C08.Proofs3 C08.Proofs4 C08.Proofs5 C08.Proofs6 C08.Proofs7 C08.Json C08.Proofs8 C08.Proofs9 C08.Proofs10.
+From Verif Require Export Common.Base C08.Model C08.Proofs1 C08.Proofs2 C08.Proofs3 C08.Proofs4 C08.Proofs5 C08.Proofs6 C08.Proofs7 C08.Json C08.Proofs8 C08.Proofs9 C08.Proofs10 C08.Proofs11 C08.T1Tie.
 From Verif Require Import Generated.OtlpProto Generated.C08JsonDecoders.
 Local Open Scope N_scope.
 
@@ -89,3 +89,54 @@ Definition with_field (m : nat) (fn : N) (x : pv) : pv :=
 Definition payload_witness : pv := with_field m_profiles_v1development_Profile 21 (VBytes [1; 2]).
 
 
+
+(* ---- the public decode paths on the real schema ---- *)
+Definition request_roots : list nat :=
+  [ m_collector_logs_v1_ExportLogsServiceRequest; m_collector_metrics_v1_ExportMetricsServiceRequest;
+    m_collector_trace_v1_ExportTraceServiceRequest; m_collector_profiles_v1development_ExportProfilesServiceRequest ].
+
+Lemma otlp_mig_ok_l : forallb (mig_ok OtlpSchema) request_roots = true.
+Proof. vm_compute. reflexivity. Qed.
+
+Lemma otlp_profiles_mig_none_l :
+  mig_none OtlpSchema m_collector_profiles_v1development_ExportProfilesServiceRequest = true.
+Proof. vm_compute. reflexivity. Qed.
+
+Lemma otlp_migrate_clears_l m v : In m request_roots -> res_shaped OtlpSchema m v = true ->
+  no_deprecated OtlpSchema m (migrate OtlpSchema m v) = true
+  /\ migrate OtlpSchema m (migrate OtlpSchema m v) = migrate OtlpSchema m v.
+Proof.
+  intros Hin Hr. pose proof otlp_mig_ok_l as H. rewrite forallb_forall in H. specialize (H m Hin).
+  split; [apply migrate_clears_l|apply migrate_idem_l]; auto; apply mig_ok_spec; exact H.
+Qed.
+
+Lemma otlp_profiles_paths_l p b :
+  decode_path OtlpSchema p m_collector_profiles_v1development_ExportProfilesServiceRequest b
+  = decode OtlpSchema m_collector_profiles_v1development_ExportProfilesServiceRequest b.
+Proof.
+  unfold decode_path. destruct (path_migrates p); [|reflexivity].
+  destruct (decode OtlpSchema _ b) as [v|]; [|reflexivity]. cbn [option_map].
+  rewrite (migrate_noop_l OtlpSchema _ (mig_none_spec OtlpSchema _ otlp_profiles_mig_none_l)). reflexivity.
+Qed.
+
+(* a legacy sender: one resource that only uses the deprecated scope field (1000) *)
+Definition legacy_request (req res scope : nat) : pv :=
+  with_field req 1 (VRep [with_field res 1000 (VRep [VMsg (mdefault (msg OtlpSchema scope))])]).
+Definition legacy_witnesses : list (nat * pv) :=
+  [ (m_collector_logs_v1_ExportLogsServiceRequest, legacy_request m_collector_logs_v1_ExportLogsServiceRequest m_logs_v1_ResourceLogs m_logs_v1_ScopeLogs);
+    (m_collector_metrics_v1_ExportMetricsServiceRequest, legacy_request m_collector_metrics_v1_ExportMetricsServiceRequest m_metrics_v1_ResourceMetrics m_metrics_v1_ScopeMetrics);
+    (m_collector_trace_v1_ExportTraceServiceRequest, legacy_request m_collector_trace_v1_ExportTraceServiceRequest m_trace_v1_ResourceSpans m_trace_v1_ScopeSpans) ].
+
+(* on legacy bytes the two public protobuf paths decode different payloads; the one ProtoUnmarshaler
+   builds still carries the deprecated field and does not survive JSON *)
+Definition paths_differ_on (w : nat * pv) : bool :=
+  let m := fst w in let b := encode OtlpSchema m (snd w) in
+  match decode_path OtlpSchema PProtoUnmarshaler m b, decode_path OtlpSchema PExportRequestProto m b with
+  | Some x, Some y =>
+      negb (pv_eqb x y) && negb (no_deprecated OtlpSchema m x) && no_deprecated OtlpSchema m y
+      && canonical OtlpSchema m x
+      && negb (option_eqb pv_eqb (of_json OtlpSchema OtlpJsonDecoders OtlpEnums m (to_json OtlpSchema m x)) (Some x))
+  | _, _ => false
+  end.
+Lemma otlp_paths_differ_l : forallb paths_differ_on legacy_witnesses = true.
+Proof. vm_compute. reflexivity. Qed.
